@@ -966,6 +966,10 @@ impl<'a, F: Function + MathFunction + Clone + Cross> World<'a, F> {
     /// `p` (given per variable slot of `f`).  Interval enclosure, on which
     /// simplification rests, exempts points whose value is NaN.
     fn nan_free(&self, proto: usize, f: &F, p: &[f32]) -> bool {
+        self.regular(proto, f, p, false)
+    }
+
+    fn regular(&self, proto: usize, f: &F, p: &[f32], allow_nan: bool) -> bool {
         let pr = &self.protos[proto];
         let (mut x, mut y, mut z) = (0.0, 0.0, 0.0);
         let mut vars = vec![0.0f32; pr.vars.len()];
@@ -982,7 +986,7 @@ impl<'a, F: Function + MathFunction + Clone + Cross> World<'a, F> {
             }
         }
         let vals = eval_f32(&pr.dag, x, y, z, &vars);
-        crate::gen_::regular_point(&pr.dag, &pr.reach, &vals)
+        crate::gen_::regular_point_ex(&pr.dag, &pr.reach, &vals, allow_nan)
     }
 
     /// C04 comparison of a child with its parent at the sample points
@@ -995,9 +999,15 @@ impl<'a, F: Function + MathFunction + Clone + Cross> World<'a, F> {
         pc: &[PtRes],
         pts: &[Vec<f32>],
         ctx: &str,
+        at_traced_point: bool,
     ) {
         for (k, (p, c)) in pp.iter().zip(pc).enumerate() {
-            if !self.nan_free(proto, parent, &pts[k]) {
+            // A trace recorded by a *point* evaluation, compared at that very
+            // point, involves no interval enclosure: every retained operation
+            // of the child sees the operands the parent's saw, NaN or not, so
+            // the NaN exemptions (which come from C03) do not apply and the
+            // child must reproduce a NaN result too.
+            if !self.regular(proto, parent, &pts[k], at_traced_point) {
                 self.rep.skipped_oracle += 1;
                 self.rep.count("oracle.skipped_nan_intermediate", 1);
                 continue;
@@ -1005,7 +1015,8 @@ impl<'a, F: Function + MathFunction + Clone + Cross> World<'a, F> {
             // where the parent's own evaluator kinds disagree (sign of zero
             // feeding atan2 etc.) the question belongs to C02/C05, not C04
             let gv: Vec<u32> = p.grad.iter().map(|g| g[0]).collect();
-            if p.point.iter().chain(&p.float).chain(&gv).any(|v| *v == 0x7fc0_0000)
+            if !at_traced_point
+                && p.point.iter().chain(&p.float).chain(&gv).any(|v| *v == 0x7fc0_0000)
             {
                 // the parent's own value is NaN here: interval enclosure
                 // exempts such points
@@ -1019,6 +1030,9 @@ impl<'a, F: Function + MathFunction + Clone + Cross> World<'a, F> {
                 continue;
             }
             self.rep.checked_oracle += 1;
+            if at_traced_point {
+                self.rep.count("oracle.compared_at_traced_point", 1);
+            }
             if p != c {
                 self.violate04(
                     clause,
@@ -1200,6 +1214,7 @@ impl<'a, F: Function + MathFunction + Clone + Cross> World<'a, F> {
                     c,
                     &pts,
                     &ctx,
+                    matches!(dom, Domain::Point(_)),
                 );
             }
             (Ok(_), Err(e)) => {
@@ -1219,6 +1234,7 @@ impl<'a, F: Function + MathFunction + Clone + Cross> World<'a, F> {
                     d,
                     &pts,
                     &ctx,
+                    matches!(dom, Domain::Point(_)),
                 );
             }
         }
@@ -1413,6 +1429,11 @@ impl<'a, F: Function + MathFunction + Clone + Cross> World<'a, F> {
                 ys: Vec<f32>,
                 zs: Vec<f32>,
                 sv_f: ShapeVars<Vec<f32>>,
+                sv_g: ShapeVars<Vec<Grad>>,
+                /// which bulk tapes are requested on the child, in which
+                /// order: 0 = float only, 1 = grad then float, 2 = float then
+                /// grad, 3 = grad only
+                gmode: u32,
             }
             let mut levels: Vec<Level> = vec![];
             for (li, bxl) in [&bx, &sub].into_iter().enumerate() {
@@ -1438,9 +1459,14 @@ impl<'a, F: Function + MathFunction + Clone + Cross> World<'a, F> {
                         .unwrap_or(vec![0.0; pts.len()])
                 };
                 let mut sv_f = ShapeVars::<Vec<f32>>::new();
+                let mut sv_g = ShapeVars::<Vec<Grad>>::new();
                 for (v, i) in &varmap {
                     if let Var::V(vi) = v {
                         sv_f.insert(*vi, cols[*i].clone());
+                        sv_g.insert(
+                            *vi,
+                            cols[*i].iter().map(|v| Grad::from(*v)).collect(),
+                        );
                     }
                 }
                 levels.push(Level {
@@ -1452,8 +1478,10 @@ impl<'a, F: Function + MathFunction + Clone + Cross> World<'a, F> {
                     ys: col(iy),
                     zs: col(iz),
                     sv_f,
+                    sv_g,
                     pts,
                     cols,
+                    gmode: self.ch(|c| c.choose("rh_gmode", 4)),
                 });
             }
             // the handle-level calls, on whatever objects are passed in
@@ -1466,7 +1494,9 @@ impl<'a, F: Function + MathFunction + Clone + Cross> World<'a, F> {
                 ws: &mut F::Workspace,
                 sie: &mut ShapeTracingEval<F::IntervalEval>,
                 sfe: &mut ShapeBulkEval<F::FloatSliceEval>,
+                sge: &mut ShapeBulkEval<F::GradSliceEval>,
                 out: &mut Vec<Res>,
+                gout: &mut Vec<Vec<[u32; 4]>>,
             ) {
                 let Some((l, rest)) = levels.split_first() else {
                     return;
@@ -1482,7 +1512,42 @@ impl<'a, F: Function + MathFunction + Clone + Cross> World<'a, F> {
                     return;
                 };
                 let child = rh.simplify(&tr, ws, shape_st, tape_st);
-                {
+                let mut grad = |child: &mut RenderHandle<F>,
+                                tape_st: &mut Vec<F::TapeStorage>| {
+                    let g = |v: &[f32], k: usize| -> Vec<Grad> {
+                        v.iter()
+                            .map(|v| {
+                                let mut d = [0.0; 3];
+                                d[k] = 1.0;
+                                Grad::new(*v, d[0], d[1], d[2])
+                            })
+                            .collect()
+                    };
+                    let gt = child.g_tape(tape_st);
+                    let v = sge
+                        .eval_raw(
+                            gt,
+                            &g(&l.xs, 0),
+                            &g(&l.ys, 1),
+                            &g(&l.zs, 2),
+                            None,
+                            ShapeBulkEval::<F::GradSliceEval>::var_array(&l.sv_g),
+                        )
+                        .expect("vars are bound");
+                    gout.push(
+                        v.iter()
+                            .map(|g| {
+                                [canon(g.v), canon(g.dx), canon(g.dy), canon(g.dz)]
+                            })
+                            .collect(),
+                    );
+                };
+                if l.gmode == 1 || l.gmode == 3 {
+                    grad(child, tape_st);
+                }
+                if l.gmode == 3 {
+                    out.push(Res::Err("grad only".to_string()));
+                } else {
                     let ft = child.f_tape(tape_st);
                     let v = sfe
                         .eval_raw(
@@ -1500,13 +1565,19 @@ impl<'a, F: Function + MathFunction + Clone + Cross> World<'a, F> {
                         v.iter().map(|v| canon(*v)).collect(),
                     ]));
                 }
-                walk::<F>(child, rest, shape_st, tape_st, ws, sie, sfe, out);
+                if l.gmode == 2 {
+                    grad(child, tape_st);
+                }
+                walk::<F>(
+                    child, rest, shape_st, tape_st, ws, sie, sfe, sge, out, gout,
+                );
             }
             let wk = &mut self.workers[w];
             let all_fresh = self.all_fresh;
             let rh = &mut rh;
             let r = rt::catch(|| {
                 let mut out = vec![];
+                let mut gout = vec![];
                 if all_fresh {
                     walk::<F>(
                         rh,
@@ -1516,7 +1587,9 @@ impl<'a, F: Function + MathFunction + Clone + Cross> World<'a, F> {
                         &mut F::Workspace::default(),
                         &mut Default::default(),
                         &mut Default::default(),
+                        &mut Default::default(),
                         &mut out,
+                        &mut gout,
                     );
                 } else {
                     walk::<F>(
@@ -1527,10 +1600,12 @@ impl<'a, F: Function + MathFunction + Clone + Cross> World<'a, F> {
                         &mut wk.ws,
                         &mut wk.sie,
                         &mut wk.sfe,
+                        &mut wk.sge,
                         &mut out,
+                        &mut gout,
                     );
                 }
-                out
+                (out, gout)
             });
             // parent values at the sample points of each level
             let c = rt::catch(|| {
@@ -1553,6 +1628,7 @@ impl<'a, F: Function + MathFunction + Clone + Cross> World<'a, F> {
                     parent_clean.clone(),
                 ));
                 let mut out = vec![];
+                let mut gout = vec![];
                 walk::<F>(
                     &mut frh,
                     &levels,
@@ -1561,8 +1637,11 @@ impl<'a, F: Function + MathFunction + Clone + Cross> World<'a, F> {
                     &mut F::Workspace::default(),
                     &mut Default::default(),
                     &mut Default::default(),
+                    &mut Default::default(),
                     &mut out,
+                    &mut gout,
                 );
+                gout
             });
             if fresh.is_err() {
                 self.rep.count("other.clean_panic", 1);
@@ -1576,10 +1655,28 @@ impl<'a, F: Function + MathFunction + Clone + Cross> World<'a, F> {
             if nested {
                 self.rep.count("op.render_handle_nested_step", 1);
             }
+            // gradient tapes requested on the children: the reused handle
+            // against the fresh one doing the same calls
+            if let (Ok((_, dg)), Ok(fg)) = (&r, &fresh) {
+                self.rep.count("op.render_handle_grad_tape_eval", dg.len() as u64);
+                if dg != fg {
+                    self.violate10(
+                        "render_handle_grad_differs_from_fresh",
+                        format!(
+                            "gradient tapes of the reused handle's children give {dg:?}, a fresh handle doing the same calls {fg:?}"
+                        ),
+                    );
+                }
+            }
+            let r = r.map(|(out, _)| out);
             match (r, c) {
                 (Ok(ds), Ok(cs)) => {
                     let proto = self.slots[s].proto;
                     for (li, d) in ds.iter().enumerate() {
+                        if matches!(d, Res::Err(_)) {
+                            // only the gradient tape was requested here
+                            continue;
+                        }
                         let c = &cs[li];
                         let pts = &levels[li].pts;
                         let bx = if li == 0 { &bx } else { &sub };
